@@ -250,8 +250,12 @@ def chaining(ctx):
     u = ctx.unit('core._handle_tuple')
     cfg = ctx.cfg(u)
     evs = evaluator_calls(p, u)
-    ctx.require(len(evs) == 1, '_handle_tuple: expected one evaluator call, found %d' % len(evs))
-    c = evs[0]
+    in_loop = [e for e in evs if cfg.node_containing(e).loop_stack]
+    stray = [e for e in evs if e not in in_loop]
+    ctx.ob(not stray, u, 'every step of a chain is evaluated inside the chain loop (with its SKIP/STOP handling)',
+           '' if not stray else 'evaluation outside the loop: %s -- a SKIP / STOP produced there escapes the chain' % [norm(e) for e in stray])
+    ctx.require(len(in_loop) == 1, '_handle_tuple: expected one evaluator call in the loop, found %d' % len(in_loop))
+    c = in_loop[0]
     node = cfg.node_containing(c)
     tgt = c.args[0]
     ctx.require(isinstance(tgt, ast.Name), '_handle_tuple: evaluator target argument is not a variable')
@@ -352,8 +356,27 @@ def coalesce(ctx):
             ctx.ob(n in orelse_nodes, u, 'self.%s is consulted only when every alternative was skipped' % n.attr, node=n)
         if isinstance(n, ast.Raise):
             ctx.ob(n in orelse_nodes, u, 'CoalesceError is raised only on exhaustion: %s' % norm(n), node=n)
-    # skipped values/errors are recorded in order
-    ctx.floor(10)
+    # skip=: predicate as is, tuple -> membership, anything else -> equality
+    iu = ctx.unit('core.Coalesce.__init__')
+    chain = [n for n in iu.node.body if isinstance(n, ast.If) and norm(n.test) == 'self.skip is _MISSING']
+    ok = len(chain) == 1
+    tests = []
+    if ok:
+        c0 = chain[0]
+        while True:
+            tests.append(c0)
+            if len(c0.orelse) == 1 and isinstance(c0.orelse[0], ast.If):
+                c0 = c0.orelse[0]
+            else:
+                break
+        texts = [norm(t.test) for t in tests]
+        ok = texts == ['self.skip is _MISSING', 'callable(self.skip)', 'isinstance(self.skip, tuple)']
+        if ok:
+            lam_t = [x for x in ast.walk(tests[2]) if isinstance(x, ast.Lambda)]
+            ok = any(norm(l.body).endswith('in self.skip') for l in lam_t[:1]) and \
+                any(norm(l.body).endswith('== self.skip') for l in [x for x in ast.walk(ast.Module(body=tests[2].orelse, type_ignores=[])) if isinstance(x, ast.Lambda)])
+    ctx.ob(ok, iu, 'skip= is a predicate, a tuple of values (membership) or a single value (equality): %s' % [norm(t.test) for t in tests])
+    ctx.floor(11)
 
 
 @rule('C03.6')
